@@ -346,7 +346,8 @@ def check_case(case):
                    weight=max(it.nops, 1), classes=["replayed_history"])
 
 
-YEARS = st.one_of(st.integers(1998, 2004), st.sampled_from([1999, 2000, 2003, 2004]))
+YEARS = st.one_of(st.integers(1998, 2004),
+                  st.sampled_from([1999, 2000, 2003, 2004, 2000, 2004, 0, 1, 9999]))
 
 
 @st.composite
